@@ -93,6 +93,7 @@ func pickScenario(name string, rng *rand.Rand) scenario {
 	case "basefee": // a nearly full block raises the base fee above the fee cap of pooled executable txs
 		s.limit = 40
 		s.lpa = 10
+		s.advances = 1 // the prelude itself advances the head four times; all heads must stay inside the synced window
 	default:
 		harnessErr("unknown scenario %q", name)
 	}
@@ -516,6 +517,9 @@ func runRecord(scen string, seed int64, mode string) ([]trace.Ev, runStat) {
 	e.evs.emit(trace.Ev{"e": "Reset", "scen": scen, "seed": seed, "mode": mode,
 		"cfg": map[string]any{"limit": sc.limit, "lpa": sc.lpa, "lifetime": sc.lifetime, "identity": true, "relaxed": r.free, "checkprio": scen != "basefee"}})
 	e.headEvent()
+	if scen == "basefee" {
+		e.levels = []*big.Int{raisedBaseFee}
+	}
 	r.genUniverse()
 	var s *sched
 	if !r.free {
@@ -750,8 +754,17 @@ func (r *recorder) preludeDrain() {
 	r.adoptOracle()
 }
 
-// preludeBaseFee: dynamic-fee txs whose fee cap equals the base fee are pooled and published as executable; then a nearly
-// full block raises the base fee. The wash on the new head has to find them unpayable (gas price below the base fee).
+// raisedBaseFee is what the base fee is made to be after the filler block of the basefee scenario: 1.01 x the initial one.
+// gasUsed = target + 2.4M gives delta = base x 2.4M / 30M / 8 = 10^11 (gas limit 40M, target 75 %), a multiple of the unit
+// for txs whose gas is a multiple of 100000.
+var raisedBaseFee = new(big.Int).SetUint64(thor.InitialBaseFee + thor.InitialBaseFee/100)
+
+// preludeBaseFee: dynamic-fee txs are pooled and published as executable - some whose fee cap equals the base fee, some
+// whose cap leaves head-room (their effective price moves with the base fee). A block filled to exactly target + 2.4M gas
+// raises the base fee by 1 %; the wash on the new head (which refreshes priorities) has to find the first kind unpayable
+// and must keep accounting the second kind at the cost they were admitted with. A head-room tx admitted at the raised base
+// fee is accounted at the higher cost; an empty block brings the base fee back down, wash refreshes again. Finally the
+// head-room txs leave: nothing may remain of their cost.
 func (r *recorder) preludeBaseFee() {
 	e := r.e
 	var rich []*acct
@@ -764,25 +777,65 @@ func (r *recorder) preludeBaseFee() {
 	t1 := e.build(txParams{org: rich[0], typed: true, maxFee: 1, maxPrio: 1, gas: 21000, ref: base, exp: 1000}, nil)
 	t2 := e.build(txParams{org: rich[1], dlg: e.poorAcct(1), typed: true, maxFee: 1, maxPrio: 1, gas: 21000, ref: base, exp: 1000}, nil)
 	t3 := e.build(txParams{org: rich[1], typed: true, maxFee: 2, maxPrio: 1, gas: 21000, ref: base, exp: 1000}, nil) // stays payable
-	r.addToUniverse(t1, t2, t3)
+	hr1 := e.build(txParams{org: rich[0], typed: true, maxFee: 5, maxPrio: 1, gas: 100000, ref: base, exp: 1000}, nil)
+	hr2 := e.build(txParams{org: rich[1], dlg: e.poorAcct(1), typed: true, maxFee: 6, maxPrio: 2, gas: 100000, ref: base, exp: 1000}, nil)
+	hr3 := e.build(txParams{org: rich[0], dlg: e.poorAcct(0), typed: true, maxFee: 4, maxPrio: 1, gas: 200000, ref: base, exp: 1000}, nil)
+	r.addToUniverse(t1, t2, t3, hr1, hr2, hr3)
 	r.doAdd(96, "remote", t1)
 	r.doAdd(96, "local", t2)
 	r.doAdd(96, "remote", t3)
+	r.doAdd(96, "remote", hr1)
+	r.doAdd(96, "local", hr2)
 	r.washOnce()
 	r.snapshotEvent("basefee-before")
-	before := e.nextBaseFee()
 	limit := e.best().Header.GasLimit()
-	n := int((limit*95/100 - thor.TxGas) / thor.ClauseGas)
-	filler := e.build(txParams{org: rich[2], gas: thor.TxGas + uint64(n)*thor.ClauseGas, coef: 0, ref: base, exp: 1000, clauses: n}, nil)
-	if _, in := e.advance([]*txSpec{filler}); len(in) != 1 {
-		harnessErr("basefee scenario: the filler tx was not adopted")
+	if limit != 40_000_000 {
+		harnessErr("basefee scenario expects a 40M gas limit, got %d", limit)
 	}
-	e.headEvent()
-	r.st.Heads++
-	if after := e.nextBaseFee(); before == nil || after == nil || after.Cmp(before) <= 0 {
-		harnessErr("basefee scenario is vacuous: base fee %v -> %v", before, after)
+	// a block of 16 filler txs using 16 x 5000 + 16000 x clauses gas
+	fillBlock := func(clauses int, label string) {
+		var fill []*txSpec
+		for i := 0; i < 16; i++ {
+			n := clauses / 16
+			if i == 15 {
+				n = clauses - 15*(clauses/16)
+			}
+			fill = append(fill, e.build(txParams{org: rich[2], gas: thor.TxGas + uint64(n)*thor.ClauseGas, coef: 0,
+				ref: base, exp: 1000, clauses: n}, nil))
+		}
+		if _, in := e.advance(fill); len(in) != len(fill) {
+			harnessErr("basefee scenario: only %d of %d filler txs were adopted", len(in), len(fill))
+		}
+		e.headEvent()
+		r.st.Heads++
+		if after := e.nextBaseFee(); after == nil || after.Cmp(raisedBaseFee) != 0 {
+			harnessErr("basefee scenario: base fee is %v after block %s, expected %v", after, label, raisedBaseFee)
+		}
+		r.washOnce()
+		r.snapshotEvent("basefee-" + label)
+		r.adoptOracle()
 	}
+	emptyBlock := func(label string) {
+		e.advance(nil)
+		e.headEvent()
+		r.st.Heads++
+		if after := e.nextBaseFee(); after == nil || after.Uint64() != thor.InitialBaseFee {
+			harnessErr("basefee scenario: base fee is %v after block %s", after, label)
+		}
+		r.washOnce()
+		r.snapshotEvent("basefee-" + label)
+		r.adoptOracle()
+	}
+	// wash refreshes priorities when the HEAD's own base fee differs from its parent's, i.e. one block after the move
+	fillBlock(2020, "raised")     // target + 2.4M gas: the next block's base fee is 1 % up; this head still carries the old one
+	fillBlock(1870, "raised-seen") // exactly the target: the base fee stays; this head carries the raised one -> refresh (upwards)
+	r.doAdd(96, "remote", hr3)     // admitted and accounted at the raised base fee
 	r.washOnce()
-	r.snapshotEvent("basefee-after")
-	r.adoptOracle()
+	r.snapshotEvent("basefee-raised-added")
+	emptyBlock("fallen")      // the next block's base fee is back at the floor; this head still carries the raised one
+	emptyBlock("fallen-seen") // this head carries the floor -> refresh (downwards)
+	for _, x := range []*txSpec{hr1, hr2, hr3} {
+		r.doRemove(96, x)
+	}
+	r.snapshotEvent("basefee-headroom-gone")
 }
